@@ -5,7 +5,7 @@ EXTENDS RankSelBig, Json, IOUtils, TLC
 Rec == ndJsonDeserialize(IOEnv.TRACE)
 
 VARIABLES l, skip
-tvars == <<blen, ones, built, l, skip>>
+tvars == <<blen, runs, built, l, skip>>
 
 TraceInit == BigInit /\ l = 1 /\ skip = FALSE
 
@@ -14,25 +14,25 @@ Step ==
     /\ l' = l + 1
     /\ LET ev == Rec[l] IN
        IF ev.op = "BEGIN"
-       THEN /\ blen' = ev.len /\ ones' = ev.ones /\ built' = FALSE /\ skip' = FALSE
-       ELSE IF skip THEN UNCHANGED <<blen, ones, built, skip>>
+       THEN /\ blen' = ev.len /\ runs' = ev.runs /\ built' = FALSE /\ skip' = FALSE
+       ELSE IF skip THEN UNCHANGED <<blen, runs, built, skip>>
        ELSE IF ev.op = "build"
        \* a constructor that does not return (panic / abort / hang) violates the properties
        THEN IF ev.out = "ret" /\ WellFormed
-            THEN built' = TRUE /\ UNCHANGED <<blen, ones, skip>>
+            THEN built' = TRUE /\ UNCHANGED <<blen, runs, skip>>
             ELSE /\ PrintT(<<"MISMATCH", ev.ep, ev.seq, ev.op, IF WellFormed THEN "constructor" ELSE "bad-script">>)
-                 /\ skip' = TRUE /\ UNCHANGED <<blen, ones, built>>
-       ELSE IF skip THEN UNCHANGED <<blen, ones, built, skip>>
+                 /\ skip' = TRUE /\ UNCHANGED <<blen, runs, built>>
+       ELSE IF skip THEN UNCHANGED <<blen, runs, built, skip>>
        ELSE LET w == IF WellFormed THEN Why(ev) ELSE "bad-script"
-            IN  IF w = "ok" THEN UNCHANGED <<blen, ones, built, skip>>
+            IN  IF w = "ok" THEN UNCHANGED <<blen, runs, built, skip>>
                 ELSE /\ PrintT(<<"MISMATCH", ev.ep, ev.seq, ev.op, w>>)
                      /\ skip' = TRUE
-                     /\ UNCHANGED <<blen, ones, built>>
+                     /\ UNCHANGED <<blen, runs, built>>
 
 Finish == /\ l = Len(Rec) + 1
           /\ PrintT(<<"TRACE-END", Len(Rec)>>)
           /\ l' = l + 1
-          /\ UNCHANGED <<blen, ones, built, skip>>
+          /\ UNCHANGED <<blen, runs, built, skip>>
 
 TraceNext == Step \/ Finish
 TraceSpec == TraceInit /\ [][TraceNext]_tvars
